@@ -178,7 +178,7 @@ def dump_to_coq(dump):
 # functions: {"name", "ret": bool, "body"} ; function k may only call functions with a larger index.
 
 class Gen:
-    def __init__(self, rng, allow_defects=False):
+    def __init__(self, rng, allow_defects=True):
         self.rng = rng
         self.mark = 100
         self.var = 0
@@ -240,9 +240,10 @@ class Gen:
 
     def block(self, depth, fi, nfun, in_loop, in_try, infun, ret, budget, ntry=0, nmark=0):
         """ntry: lexically enclosing try statements (body or catch) in this function; nmark: enclosing try
-        bodies + loops (stack markers alive in this frame).  The clean stream keeps clear of three recorded
-        defects: a three-clause for loop inside a try statement, break/continue leaving a try, and a value
-        return below two or more stack markers (see docs/C10.md)."""
+        bodies + loops (stack markers alive in this frame).  allow_defects=False keeps clear of three shapes that
+        were defects until fixes 030cc3b3 / 74b1e8a2 / 4b25dcd5 (a three-clause for loop inside a try statement,
+        break/continue leaving a try, a value return below two or more stack markers); the default stream
+        contains them."""
         rng = self.rng
         out = []
         n = rng.randint(1, 4)
@@ -269,6 +270,12 @@ class Gen:
                 if rng.random() < 0.5:
                     pos = rng.randint(0, len(body))
                     body.insert(pos, (rng.choice(["break_at", "continue_at"]), rng.randint(0, k - 1)))
+                tries = [x for x in body if x[0] == "try"]
+                if tries and self.allow_defects and rng.random() < 0.6:
+                    # leave the loop from inside a try body or a catch block
+                    t = rng.choice(tries)
+                    tgt = t[1] if (t[2] is None or rng.random() < 0.6) else t[2]
+                    tgt.insert(rng.randint(0, len(tgt)), (rng.choice(["break_at", "continue_at"]), rng.randint(0, k - 1)))
                 out.append(("loop", k, body))
             elif r < 0.75 and fi + 1 < nfun:
                 out.append((rng.choice(["call", "callv"]), rng.randint(fi + 1, nfun - 1)))
@@ -293,7 +300,7 @@ class Gen:
         return out
 
 
-def gen_program(rng, allow_defects=False):
+def gen_program(rng, allow_defects=True):
     g = Gen(rng, allow_defects)
     nfun = rng.randint(1, 4)
     funs = []
